@@ -48,6 +48,7 @@ Violations(c) ==
           IN (IF o.exec_ok # okExec THEN {"effective-pipeline-differs"} ELSE {})
              \cup (IF o.exec_fail # failExec THEN {"effective-error-pipeline-differs"} ELSE {})
              \cup (IF o.bt # EffectiveBt(c.def, c.rule) THEN {"backtracking-setting-differs"} ELSE {})
+             \cup (IF o.bt_later # EffectiveBt(c.def, c.rule) THEN {"backtracking-setting-differs-later"} ELSE {})
              \cup (IF ~o.positive_ok THEN {"valid-pipeline-not-positive"} ELSE {})
              \cup pair
 
